@@ -1194,7 +1194,8 @@ class NestedPipeFunc(PipeFunc):
             for f in self.pipeline.functions
             if isinstance(f.output_name, tuple) and f._output_picker is not None
         }
-        return _NestedFuncWrapper(func.call_full_output, self.output_name, output_pickers)
+        # `_output_name`: the inner pipeline knows its outputs by their original (not renamed) names
+        return _NestedFuncWrapper(func.call_full_output, self._output_name, output_pickers)
 
     @functools.cached_property
     def __name__(self) -> str:  # type: ignore[override]
